@@ -2,6 +2,7 @@
 // Nodes retired through the hazard-pointer GC callback are really freed under ASan and immediately recycled
 // (shared pool) otherwise, so that ABA / use-after-reclaim become observable.
 #include "ds_common.h"
+#include <sys/mman.h>
 #include "mpmc_fifo.h"
 
 static _Atomic(hazard_pointer_thread_record_t*) hp_head;
@@ -15,6 +16,37 @@ static int pool_n;
 static vp_counter_t *c_recycled, *c_gc, *c_push, *c_pop, *c_empty, *c_rounds;
 
 #define POISON ((void*)(uintptr_t)0xDEADDEADDEADULL)
+
+#ifndef VP_ASAN
+// fresh nodes come from regions that lie gigabytes to terabytes apart (distant mmap hints), handed out round-robin, so that the
+// hazard pointers published at any moment - which the reclamation scan sorts and searches - differ by more than 2^31 and 2^32
+#define AR_REGIONS 6
+#define AR_PER 8192
+static mpmc_fifo_node_t* ar_base[AR_REGIONS];
+static _Atomic long ar_next;
+static int ar_ready;
+static void arena_init(void) {
+  static const uintptr_t hints[AR_REGIONS] = {0x10000000000ULL, 0x10080001000ULL, 0x20000000000ULL, 0x5f0000000000ULL, 0x100000000ULL, 0x7000000000ULL};
+  int h;
+  for (h = 0; h < AR_REGIONS; ++h) {
+    void* m = mmap((void*)hints[h], AR_PER * sizeof(mpmc_fifo_node_t), PROT_READ | PROT_WRITE, MAP_PRIVATE | MAP_ANONYMOUS, -1, 0);
+    ar_base[h] = m == MAP_FAILED ? NULL : (mpmc_fifo_node_t*)m;
+  }
+  ar_ready = 1;
+}
+static int arena_owns(const mpmc_fifo_node_t* n) {
+  int h;
+  for (h = 0; h < AR_REGIONS; ++h)
+    if (ar_base[h] && n >= ar_base[h] && n < ar_base[h] + AR_PER) return 1;
+  return 0;
+}
+static mpmc_fifo_node_t* arena_fresh(void) {
+  const long k = atomic_fetch_add(&ar_next, 1);
+  if (k >= (long)AR_REGIONS * AR_PER) return NULL;
+  mpmc_fifo_node_t* b = ar_base[k % AR_REGIONS];
+  return b ? &b[k / AR_REGIONS] : NULL;
+}
+#endif
 
 static void node_gc(void* gc_data, hazard_node_t* h) {
   (void)gc_data;
@@ -31,7 +63,7 @@ static void node_gc(void* gc_data, hazard_node_t* h) {
     n = NULL;
   }
   pthread_spin_unlock(&pool_lock);
-  if (n) free(n);
+  if (n && !arena_owns(n)) free(n);
 #endif
 }
 
@@ -42,6 +74,7 @@ static mpmc_fifo_node_t* node_alloc(void) {
   if (pool_n > 0) n = pool[--pool_n];
   pthread_spin_unlock(&pool_lock);
   if (n) vp_add(c_recycled, 1);
+  if (!n && ar_ready) n = arena_fresh();
 #endif
   if (!n) n = (mpmc_fifo_node_t*)malloc(sizeof(*n));
   n->hazard.gc_data = NULL;
@@ -135,6 +168,9 @@ void ds_sub_mpmc(void) {
   c_empty = vp_counter("mpmc_pop_empty");
   c_rounds = vp_counter("mpmc_rounds");
   pthread_spin_init(&pool_lock, 0);
+#ifndef VP_ASAN
+  arena_init();
+#endif
   uint64_t rng = vp_mix(vp_cfg.seed, 1313);
   for (cur_round = 0; cur_round < rounds; ++cur_round) {
     const int T = ds_nworkers;
